@@ -39,6 +39,7 @@ struct UfoSpec {
     layers: Vec<LayerSpec>,
     poison: Vec<(usize, usize)>, // (layer, glyph): gets a public.objectLibs lib key after load
     params: String,
+    gk: Option<(Vec<(String, Vec<String>)>, Vec<(String, String, i64)>)>, // explicit groups / kerning (family fonts)
     saves: Vec<&'static str>, // further save steps in the same process, see `extra_saves`
     script: Vec<String>, // JSON arrays: edits applied through the public API after loading, before saving
     legacy: bool, // formatVersion 2 with kerning groups named like glyphs / component bases
@@ -248,7 +249,7 @@ fn gen_ufo(rng: &mut Rng, sh: &Shape) -> UfoSpec {
         "layers={} names={} density={} comp_pool={} max_comps={} broken={} dups={} poison={} stale={} cold_base={} legacy={}",
         sh.layers, sh.names, sh.density, sh.comp_pool, sh.max_comps, sh.broken, sh.dups, sh.poison, sh.stale, sh.cold_base, sh.legacy
     );
-    UfoSpec { layers, poison, params, saves: vec![], script: vec![], legacy: sh.legacy }
+    UfoSpec { layers, poison, params, gk: None, saves: vec![], script: vec![], legacy: sh.legacy }
 }
 
 /// A small edit script through the public container API, the same for both builds: insert_glyph,
@@ -418,7 +419,35 @@ fn write_ufo(rng: &mut Rng, u: &UfoSpec, dir: &Path) {
             distinct.push(g.key.clone());
         }
     }
-    if !all.is_empty() {
+    if let Some((groups, kerning)) = &u.gk {
+        let mut gs = String::new();
+        for (g, members) in groups {
+            let _ = writeln!(gs, "<key>{}</key>\n<array>", xml_esc(g));
+            for m in members {
+                let _ = writeln!(gs, "<string>{}</string>", xml_esc(m));
+            }
+            gs.push_str("</array>\n");
+        }
+        // kerning: first -> {second: value}; pairs with the same first are merged
+        let mut firsts: Vec<&String> = vec![];
+        for (f, _, _) in kerning {
+            if !firsts.contains(&f) {
+                firsts.push(f);
+            }
+        }
+        let mut ks = String::new();
+        for f in firsts {
+            let _ = writeln!(ks, "<key>{}</key>\n<dict>", xml_esc(f));
+            for (f2, sec, v) in kerning {
+                if f2 == f {
+                    let _ = writeln!(ks, "<key>{}</key>\n<integer>{}</integer>", xml_esc(sec), v);
+                }
+            }
+            ks.push_str("</dict>\n");
+        }
+        write_file(&dir.join("groups.plist"), &format!("{}<dict>\n{}</dict>\n</plist>\n", PLIST_HEAD, gs));
+        write_file(&dir.join("kerning.plist"), &format!("{}<dict>\n{}</dict>\n</plist>\n", PLIST_HEAD, ks));
+    } else if !all.is_empty() {
         let mut gs = String::new();
         let mut ks = String::new();
         let mut used: HashMap<String, ()> = HashMap::new();
@@ -606,6 +635,84 @@ fn shapes(rng: &mut Rng, thorough: bool) -> Vec<Shape> {
     v
 }
 
+/// A family of fonts over ONE name pool, for histories of several loads in one process: the same
+/// glyph and group names occur in all of them, so anything that survived an earlier load (per
+/// thread, per process) and is keyed by a name would show in a later one.
+///   A1  UFO 2, glyphs = the lower half of the pool up to X (X is its last glyph), groups with
+///       names of no glyph, kerning through them
+///   A2  UFO 2, same glyphs, groups named like glyphs, kerning through them
+///   B   UFO 2, NO glyphs (kerning-only source), one un-prefixed group per pool name, all used in kerning
+///   C   UFO 2, glyphs = X and the upper half (X is its first glyph), groups named X and like another glyph
+///   D   UFO 3, all pool names, v3 groups
+fn gen_family(rng: &mut Rng, f: usize, first_id: u64) -> Vec<(&'static str, UfoSpec)> {
+    let mut pool = name_pool(rng, 16 + 4 * (f % 3));
+    pool.sort_by(|a, b| a.as_bytes().cmp(b.as_bytes()));
+    let mid = pool.len() / 2;
+    let x = pool[mid].clone();
+    let mut id = first_id;
+    let mut layer = |names: &[String], rng: &mut Rng| -> LayerSpec {
+        let glyphs = names
+            .iter()
+            .enumerate()
+            .map(|(i, n)| {
+                id += 1;
+                let bases = if rng.chance(1, 2) { vec![rng.pick(&pool).clone()] } else { vec![] };
+                GlyphSpec { key: n.clone(), file: format!("f{}_{}.glif", i, id), inner: n.clone(), bases, id, broken: 0, dup_of: None }
+            })
+            .collect();
+        LayerSpec { name: "public.default".into(), dir: "glyphs".into(), glyphs, color: false, lib: false }
+    };
+    let mk = |l: LayerSpec, legacy: bool, gk, what: &str| UfoSpec {
+        layers: vec![l],
+        poison: vec![],
+        params: format!("family={} member={} pool={} X={:?}", f, what, pool.len(), x),
+        gk: Some(gk),
+        saves: vec![],
+        script: vec![],
+        legacy,
+    };
+    let lower: Vec<String> = pool[..=mid].to_vec();
+    let upper: Vec<String> = pool[mid..].to_vec();
+    let g_a1 = (
+        vec![("@g1".to_string(), vec![lower[0].clone()]), ("@g2".to_string(), vec![x.clone()])],
+        vec![("@g1".to_string(), lower[0].clone(), 10), ("@g2".to_string(), "@g1".to_string(), -20), (lower[0].clone(), "@g2".to_string(), 5)],
+    );
+    let g_a2 = (
+        vec![(lower[1 % lower.len()].clone(), vec![lower[0].clone()]), (x.clone(), vec![x.clone()]), ("@g".to_string(), vec![lower[1 % lower.len()].clone()])],
+        vec![(lower[1 % lower.len()].clone(), x.clone(), 11), (x.clone(), "@g".to_string(), -21), ("@g".to_string(), lower[0].clone(), 7)],
+    );
+    let mut bg = vec![];
+    let mut bk = vec![];
+    for (i, n) in pool.iter().enumerate() {
+        bg.push((n.clone(), vec![format!("member{}", i)]));
+        if i % 2 == 0 {
+            bk.push((n.clone(), format!("member{}", (i + 1) % pool.len()), i as i64));
+        } else {
+            bk.push((format!("member{}", i), n.clone(), -(i as i64)));
+        }
+    }
+    let g_c = (
+        vec![(x.clone(), vec![upper[upper.len() - 1].clone()]), (upper[upper.len() - 1].clone(), vec![x.clone()]), ("@gc".to_string(), vec![upper[1 % upper.len()].clone()])],
+        vec![(x.clone(), upper[upper.len() - 1].clone(), 3), (upper[upper.len() - 1].clone(), x.clone(), -3), ("@gc".to_string(), x.clone(), 9)],
+    );
+    let g_d = (
+        vec![("public.kern1.a".to_string(), vec![pool[0].clone()]), ("public.kern2.b".to_string(), vec![x.clone()])],
+        vec![("public.kern1.a".to_string(), "public.kern2.b".to_string(), 40), (x.clone(), pool[0].clone(), -4)],
+    );
+    let (la1, la2, lb, lc, ld) = (layer(&lower, rng), layer(&lower, rng), layer(&[], rng), layer(&upper, rng), layer(&pool, rng));
+    vec![
+        ("A1", mk(la1, true, g_a1, "A1")),
+        ("A2", mk(la2, true, g_a2, "A2")),
+        ("B", mk(lb, true, (bg, bk), "B")),
+        ("C", mk(lc, true, g_c, "C")),
+        ("D", mk(ld, false, g_d, "D")),
+    ]
+}
+
+/// histories over one family (indices into A1 A2 B C D): 2-4 loads (each followed by a save) of
+/// different fonts in one process
+const HISTORIES: [&[usize]; 7] = [&[0, 2], &[1, 2], &[0, 3], &[2, 1, 2], &[4, 0, 2, 3], &[1, 4, 3, 2], &[3, 0, 3]];
+
 fn gen(a: &Args) {
     let mut rng = Rng::new(a.seed ^ 0xC19);
     let root = a.out.join("ufos");
@@ -639,7 +746,78 @@ fn gen(a: &Args) {
             k, ng, u.layers.len(), jstr(&u.params)
         ));
     }
+    // families for the cross-load histories
+    let nfam = if a.thorough() { 8 } else { 3 };
+    let mut k = shapes.len();
+    let mut hist = vec![];
+    for f in 0..nfam {
+        let mut r = rng.fork();
+        let fam = gen_family(&mut r, f, 100_000 + 1000 * f as u64);
+        let base = k;
+        for (_, u) in &fam {
+            let dir = root.join(format!("{:03}", k));
+            write_ufo(&mut r, u, &dir);
+            write_sidecar(u, &root, k, a.seed);
+            let ng: usize = u.layers.iter().map(|l| l.glyphs.len()).sum();
+            index_lines.push(format!("{{\"k\":{},\"glyphs\":{},\"layers\":1,\"params\":{}}}", k, ng, jstr(&u.params)));
+            k += 1;
+        }
+        for (hi, h) in HISTORIES.iter().enumerate() {
+            let steps: Vec<String> = h.iter().map(|m| format!("\"{:03}\"", base + m)).collect();
+            let members: Vec<String> = h.iter().map(|m| format!("\"{}\"", fam[*m].0)).collect();
+            hist.push(format!(
+                "{{\"id\":\"f{}h{}\",\"steps\":[{}],\"members\":[{}],\"thread\":\"{}\"}}",
+                f, hi, steps.join(","), members.join(","), if (f + hi) % 2 == 0 { "main" } else { "spawned" }
+            ));
+        }
+    }
+    write_file(&a.out.join("hist.json"), &format!("[{}]", hist.join(",\n")));
     write_file(&a.out.join("gen.json"), &format!("[{}]", index_lines.join(",\n")));
+}
+
+fn read_side(root: &Path, k: &str) -> serde_json::Value {
+    std::fs::read_to_string(root.join(format!("{}.json", k))).ok().and_then(|s| serde_json::from_str(&s).ok()).unwrap_or(serde_json::Value::Null)
+}
+
+/// the histories of hist.json: every step loads (and saves) another UFO, all in this process, on the
+/// main thread or on one spawned thread; one result file per step
+fn hist(a: &Args, tag: &str) {
+    let root = a.out.join("ufos");
+    let res = a.out.join("res").join(tag);
+    std::fs::create_dir_all(&res).unwrap();
+    let tmp = a.out.join("tmp").join(format!("{}_h", tag));
+    std::fs::create_dir_all(&tmp).unwrap();
+    let hs: serde_json::Value = std::fs::read_to_string(a.out.join("hist.json")).ok().and_then(|s| serde_json::from_str(&s).ok()).unwrap_or(serde_json::Value::Null);
+    for h in hs.as_array().cloned().unwrap_or_default() {
+        let id = h["id"].as_str().unwrap_or("h").to_string();
+        let steps: Vec<String> = h["steps"].as_array().map(|s| s.iter().filter_map(|x| x.as_str().map(String::from)).collect()).unwrap_or_default();
+        let (root2, res2, tmp2) = (root.clone(), res.clone(), tmp.clone());
+        let work = move || {
+            for (i, k) in steps.iter().enumerate() {
+                let side = read_side(&root2, k);
+                let o = observe(&root2.join(k), &side, &tmp2.join("save"));
+                write_file(&res2.join(format!("hist_{}_{}_{}.txt", id, i, k)), &o);
+            }
+        };
+        if h["thread"].as_str() == Some("spawned") {
+            let _ = std::thread::spawn(work).join();
+        } else {
+            work();
+        }
+    }
+    let _ = std::fs::remove_dir_all(&tmp);
+}
+
+/// one UFO, alone in this process
+fn solo(a: &Args, tag: &str, k: &str) {
+    let root = a.out.join("ufos");
+    let res = a.out.join("res").join(tag);
+    std::fs::create_dir_all(&res).unwrap();
+    let tmp = a.out.join("tmp").join(format!("{}_solo_{}", tag, k));
+    std::fs::create_dir_all(&tmp).unwrap();
+    let o = observe(&root.join(k), &read_side(&root, k), &tmp.join("save"));
+    write_file(&res.join(format!("solo_{}.txt", k)), &o);
+    let _ = std::fs::remove_dir_all(&tmp);
 }
 
 fn write_sidecar(u: &UfoSpec, root: &Path, k: usize, seed: u64) {
@@ -673,12 +851,12 @@ fn write_sidecar(u: &UfoSpec, root: &Path, k: usize, seed: u64) {
     write_file(
         &root.join(format!("{:03}.json", k)),
         &format!(
-            "{{\"table\":[{}],\"poison\":[{}],\"script\":[{}],\"saves\":[{}],\"params\":{},\"seed\":{},\"glyphs\":{},\"broken\":{},\"dup_entries\":{},\"legacy\":{}}}",
-            tb.join(","), poison.join(","), u.script.join(","), u.saves.iter().map(|x| jstr(x)).collect::<Vec<_>>().join(","), jstr(&u.params), seed, ng, nbroken, ndup, u.legacy
+            "{{\"table\":[{}],\"poison\":[{}],\"script\":[{}],\"saves\":[{}],\"family\":{},\"params\":{},\"seed\":{},\"glyphs\":{},\"broken\":{},\"dup_entries\":{},\"legacy\":{}}}",
+            tb.join(","), poison.join(","), u.script.join(","), u.saves.iter().map(|x| jstr(x)).collect::<Vec<_>>().join(","), u.gk.is_some(), jstr(&u.params), seed, ng, nbroken, ndup, u.legacy
         ),
     );
     let maxl = u.layers.iter().map(|l| l.glyphs.len()).max().unwrap_or(0);
-    if maxl <= 130 && !u.legacy {
+    if maxl <= 130 && !u.legacy && u.gk.is_none() {
         write_file(&root.join(format!("{:03}.case", k)), &case_term(u, &table, &index, seed.wrapping_mul(1000).wrapping_add(k as u64)));
     }
 }
@@ -1069,6 +1247,9 @@ fn run(a: &Args, tag: &str, reps: usize) {
             .ok()
             .and_then(|s| serde_json::from_str(&s).ok())
             .unwrap_or(serde_json::Value::Null);
+        if side["family"].as_bool() == Some(true) {
+            continue; // fonts of the cross-load histories: run by `hist` / `solo`
+        }
         let t0 = std::time::Instant::now();
         let first = observe(&root.join(k), &side, &tmp.join("save"));
         write_file(&res.join(format!("{}.txt", k)), &first);
@@ -1101,6 +1282,8 @@ pub fn main(a: &Args) {
             let reps = a.extra.get(2).and_then(|s| s.parse().ok()).unwrap_or(1);
             run(a, &tag, reps)
         }
+        Some("hist") => hist(a, &a.extra.get(1).cloned().unwrap_or_else(|| "seq".into())),
+        Some("solo") => solo(a, &a.extra.get(1).cloned().unwrap_or_else(|| "seq".into()), &a.extra.get(2).cloned().unwrap_or_default()),
         Some("features") => println!("rayon={}", cfg!(feature = "rayon")),
         _ => {
             eprintln!("usage: c19 gen|run <tag> <reps> --out DIR [--seed N --tier T]");
